@@ -48,6 +48,13 @@ Theorem C31_accept_exact_length : forall L b m, decode L b = Ok m -> zlen b <= I
 Proof. exact accept_exact_length. Qed.
 Print Assumptions C31_accept_exact_length.
 
+(* ... IS the file mj_saveModel writes for the loaded model (re-saving gives the same bytes; with
+   C31_roundtrip: accepted buffers and well-formed models correspond one to one), ... *)
+Theorem C31_accept_resave_identical : forall L b m, wf_layout L = true -> zlen b <= INT_MAX ->
+  Forall (fun x => 0 <= x < 256) b -> decode L b = Ok m -> encode L m = b.
+Proof. exact accept_resave_identical. Qed.
+Print Assumptions C31_accept_resave_identical.
+
 (* ... carries the expected header, field by field; a wrong header is rejected at its first wrong field *)
 Theorem C31_accept_header : forall L b m, decode L b = Ok m -> file_hdr L b = l_hdr L.
 Proof. exact accept_header. Qed.
@@ -78,6 +85,13 @@ Theorem C31_validate_partial : forall L b m, l_ref64 L = true -> decode L b = Ok
          (combine (ref_adrs m r) (ref_nums m r)).
 Proof. exact validate_partial. Qed.
 Print Assumptions C31_validate_partial.
+
+(* partial, second list of mj_validateReferences (MJMODEL_REFERENCES_REQUIRED, regenerated into l_reqs; empty
+   when the source has no such list): an accepted model has no negative entry in the listed arrays *)
+Theorem C31_validate_required_partial : forall L b m, decode L b = Ok m ->
+  forall q, In q (l_reqs L) -> Forall (fun a => 0 <= a) (req_adrs m q).
+Proof. exact validate_required. Qed.
+Print Assumptions C31_validate_required_partial.
 
 (* ---------- the layout regenerated from the tree under test ---------- *)
 Theorem C31_real_layout_wf : wf_layout real_layout = true.
@@ -113,7 +127,7 @@ Print Assumptions C31_real_validate_partial.
    outside the model buffer ---------- *)
 Definition toy (chk : bool) : layout :=
   mkLayout [7; 8] 3 1 [] 0 1 2 [0%nat] 64 [2]
-           [mkArr 4 0 (NcC 1); mkArr 1 1 (NcC 1)] [mkRef 0 0 1 0 None] chk true.
+           [mkArr 4 0 (NcC 1); mkArr 1 1 (NcC 1)] [mkRef 0 0 1 0 None] [mkReq 0 0] chk true.
 Definition toy_model : model := mkModel [2; 4; 68] [[1; 2]] [[0; 0; 0; 0; 1; 0; 0; 0]; [9; 9; 9; 9]].
 
 Example C31_toy_wf : wf_layout (toy true) = true /\ wf_modelb (toy true) toy_model = true /\
